@@ -33,3 +33,22 @@ package store
 //@ func CAStore.addItemForDiskSync
 //@   trusted
 //@   modifies every list.Element.list, every list.List.len, every list.List.hi
+
+// ---- what becomes readable under a digest (property C01) ---------------------------------------------
+//
+// Two sinks make content readable under a name: the rename of an upload file into the cache
+// directory (MoveFileFrom in MoveUploadFileToCache) and the insertion of a memory entry
+// (BlobMemoryCache.Add, whose precondition `verified` is discharged in addToMemoryCache). Both are
+// reached only with content that hashes to the name. Readers serve a memory entry only through
+// BlobMemoryCache.Get, whose lock invariant says every stored entry hashes to its key.
+
+// The upload file is renamed into the cache only after the bytes read from it were verified
+// against cacheName.
+//@ func CAStore.MoveUploadFileToCache
+//@   requires s != nil && s.uploadStore != nil && s.cacheStore != nil
+//@   modifies *
+//@   assert verified_before_commit: at FileOp.MoveFileFrom#0 :: s.config.SkipHashVerification || hashok(rsrc(f), cacheName)
+
+//@ func CAStore.GetCacheFileReader
+//@   requires s != nil && s.cacheStore != nil && (s.memCache == nil || s.memCache.entries != nil)
+//@   assert memory_bytes_verified: at NewBufferFileReader#0 :: hashok(sliceid(entry.Data), name)
